@@ -17,6 +17,12 @@ pub struct Case {
     pub sqlite: bool,
     /// per task: list of (key, value)
     pub tasks: Vec<Vec<(String, String)>>,
+    /// later changes (task index, kind) committed WITHOUT a working-set rebuild, so that the
+    /// working set no longer matches the tasks: 0 remove the status, 1 remove every property,
+    /// 2 delete the task, 3 unknown status, 4 make it pending (twice in the working set is not
+    /// possible, but an entry for a task that is listed already is requested)
+    #[serde(default)]
+    pub after: Vec<(u8, u8)>,
 }
 
 const TS_KEYS: [&str; 7] = ["entry", "wait", "modified", "due", "start", "end", "scheduled"];
@@ -107,8 +113,9 @@ pub fn strategy(sqlite_weight: u32) -> BoxedStrategy<Case> {
     (
         prop_oneof![8 => Just(false), sqlite_weight => Just(true)],
         proptest::collection::vec(proptest::collection::vec(kv, 0..10), 1..5),
+        proptest::collection::vec((0u8..5, 0u8..5), 0..4),
     )
-        .prop_map(|(sqlite, tasks)| Case { sqlite, tasks })
+        .prop_map(|(sqlite, tasks, after)| Case { sqlite, tasks, after })
         .boxed()
 }
 
@@ -470,6 +477,63 @@ pub fn check_case(c: &Case) -> CheckResult {
         if !want.is_empty() {
             rep.class("dependency-edge");
         }
+    }
+    // --- second phase: the tasks change, the working set is not rebuilt
+    if !c.after.is_empty() {
+        let mut ops = Operations::new();
+        for (ti, kind) in &c.after {
+            let uuid = task_uuid(*ti as usize % c.tasks.len());
+            let Some(mut td) = guarded("Replica::get_task_data", || block_on(r.get_task_data(uuid)))?
+                .map_err(|e| Failure::new("api-error", format!("{e}")))?
+            else {
+                continue;
+            };
+            match kind {
+                0 => td.update("status", None, &mut ops),
+                1 => {
+                    let keys: Vec<String> = td.properties().cloned().collect();
+                    for k in keys {
+                        td.update(k, None, &mut ops);
+                    }
+                }
+                2 => td.delete(&mut ops),
+                3 => td.update("status", Some("no-such-status".into()), &mut ops),
+                _ => td.update("status", Some("pending".into()), &mut ops),
+            }
+        }
+        block_on(r.commit_operations(ops)).map_err(|e| Failure::new("commit-error", format!("second commit failed: {e}")))?;
+        guarded("Replica::all_tasks (stale working set)", || block_on(r.all_tasks()))?.ok();
+        guarded("Replica::pending_tasks (stale working set)", || block_on(r.pending_tasks()))?.ok();
+        guarded("Replica::pending_task_data (stale working set)", || block_on(r.pending_task_data()))?.ok();
+        let ws2 = guarded("Replica::working_set (stale working set)", || block_on(r.working_set()))?
+            .map_err(|e| Failure::new("api-error", format!("{e}")))?;
+        guarded("WorkingSet reads (stale working set)", || {
+            for i in 0..=ws2.largest_index() + 1 {
+                let _ = ws2.by_index(i);
+            }
+            ws2.iter().count()
+        })?;
+        for force in [false, true] {
+            let dm2 = guarded("Replica::dependency_map (stale working set)", || block_on(r.dependency_map(force)))?
+                .map_err(|e| Failure::new("api-error", format!("{e}")))?;
+            for i in 0..c.tasks.len() {
+                guarded("DependencyMap reads (stale working set)", || {
+                    (dm2.dependencies(task_uuid(i)).count(), dm2.dependents(task_uuid(i)).count())
+                })?;
+            }
+        }
+        for i in 0..c.tasks.len() {
+            let uuid = task_uuid(i);
+            if let Some(t) = guarded("Replica::get_task (stale working set)", || block_on(r.get_task(uuid)))?
+                .map_err(|e| Failure::new("api-error", format!("{e}")))?
+            {
+                guarded("Task reads (stale working set)", || {
+                    (t.get_status(), t.is_waiting(), t.is_active(), t.is_blocked(), t.is_blocking(), t.get_tags().count(), t.get_dependencies().count())
+                })?;
+            }
+        }
+        guarded("Replica::rebuild_working_set (after the change)", || block_on(r.rebuild_working_set(false)))?.ok();
+        rep.class("working-set-stale-after-a-later-change");
     }
     rep.nontrivial = nontrivial;
     Ok(rep)
